@@ -632,13 +632,21 @@ def el_million_class(chk):
     """one step of the loop in which 2^20 + 3 events are requested for one and the same instant, popped afterwards: first in,
     first out (no model run: the oracle is the order of the requests)"""
     from gradysim.simulator.event import EventLoop
+    import time
+    if chk.violations or chk.corr_breaks:
+        return          # (the property is already shown to fail on this tree; a million events are not needed to say so)
     loop = EventLoop()
     cb = (lambda: None)
     loop.schedule_event(1.0, cb, "first")
     loop.pop_event()
     n = 2 ** 20 + 3
+    t0 = time.time()
     for i in range(n):
         loop.schedule_event(5.0, cb, str(i))
+        if i == 20000 and time.time() - t0 > 2.0:
+            # an event loop a hundred times slower than the unchanged one: this class would take hours; it is left out
+            chk.record("el-million-requests-in-one-step", {"requests": i, "abandoned": "too slow"}, False)
+            return
     loop.schedule_event(5.0, cb, "last")
     wrong = None
     for i in range(n):
@@ -646,6 +654,9 @@ def el_million_class(chk):
         if e.context != str(i):
             wrong = (i, e.context)
             break
+        if i == 20000 and time.time() - t0 > 30.0:
+            chk.record("el-million-requests-in-one-step", {"requests": n, "abandoned": "too slow"}, False)
+            return
     chk.record("el-million-requests-in-one-step", {"requests": n}, True)
     chk.validated += 1
     if wrong is not None:
